@@ -1,12 +1,11 @@
 SPECIFICATION Spec
 CONSTANTS
-  Res = {"r1", "r2"}
+  Res = {"r1", "c1"}
   Nss = {"n1", "n2"}
-  ClusterScoped = {}
-  MaxRevisions = 4
+  ClusterScoped = {"c1"}
+  MaxRevisions = 1000000
   MaxDeaths = 0
   HoldLock = TRUE
+VIEW NoCount
 INVARIANT Coverage
-INVARIANT NoF34
-PROPERTY EventuallyCovered
 CHECK_DEADLOCK FALSE
